@@ -258,7 +258,9 @@ where
             Some((p, _)) => Ok((*p).clone()),
             None => match t!(self.refs.get(r.id)) {
                 XRef::Raw {pos, ..} => {
-                    let mut lexer = Lexer::with_offset(t!(self.backend.read(self.start_offset + pos ..)), self.start_offset + pos);
+                    // an offset that does not fit behind the header position lies beyond the end of the file
+                    let pos = t!(self.start_offset.checked_add(pos).ok_or(PdfError::ContentReadPastBoundary));
+                    let mut lexer = Lexer::with_offset(t!(self.backend.read(pos ..)), pos);
                     let p = t!(parse_indirect_object(&mut lexer, resolve, self.decoder.as_ref(), flags)).1;
                     Ok(p)
                 }
